@@ -6,17 +6,15 @@
    exactly these events and the correspondence check compares them one by one.
 
    Proved here, for EVERY haystack, needle, address, architecture / CPU outcome,
-   prefilter setting and ranker function (no size bound anywhere):
-     building + find           steps <= 4905 * (|h| + 1) + 6 * |x| + 11   (C13_find, C13_finder)
+   prefilter setting and ranker function (no size bound, no exception):
+     building + find           steps <= 4906 * (|h| + 1) + 6 * |x| + 11   (C13_find, C13_finder)
      building + rfind          steps <=   70 * (|h| + 1) + 6 * |x| + 11   (C13_rfind)
-   with ONE exception, which has only the product bound C13_find_small_period_partial:
-   forward search of a needle for which Two-Way is in its small-period case WHILE a
-   prefilter is attached (the prefilter resets the Two-Way memory).  Without a
-   prefilter (FinderBuilder::prefilter(None), or rfind) these needles obey the linear
-   bound as well (C13_finder_noprefilter).
-   Complete find_iter / rfind_iter traversals: see C13_iter_* below. *)
-From Memchr Require Import Spec SpecProofs Params Base.Cost Sub.TwoWay Sub.Searcher Sub.SearcherProofs
-  Sub.CostBlocks Sub.CostTwoWay Sub.CostTwoWayAll Sub.CostPrefilter Sub.CostSearcher.
+   This includes forward search of small-period needles with a prefilter attached, where
+   the prefilter throws the Two-Way memory away: Sub/CostTwoWaySmall.v shows by a
+   Fine-Wilf argument that the windows which are then re-scanned are far apart.
+   Complete find_iter / rfind_iter traversals: see C13_iter_* (when present). *)
+From Memchr Require Import Spec SpecProofs Params Base.Cost Sub.Prefilter Sub.TwoWay Sub.TwoWayFwdProofs Sub.Searcher Sub.SearcherProofs
+  Sub.CostBlocks Sub.CostTwoWay Sub.CostTwoWayAll Sub.CostTwoWaySmall Sub.CostPrefilter Sub.CostSearcher.
 
 Local Open Scope nat_scope.
 
@@ -33,39 +31,40 @@ Definition steps {A} (m : M A) : nat := cost (snd m).
 
 (* memmem::find *)
 Theorem C13_find : forall ar a h x,
-  bytes_ok x -> bytes_ok h -> ~ small_period x ->
+  bytes_ok x -> bytes_ok h ->
   (exists r, fst (memmem_find ar a h x) = Ok r) /\
-  steps (memmem_find ar a h x) <= 4905 * (length h + 1) + 6 * length x + 11.
+  steps (memmem_find ar a h x) <= 4906 * (length h + 1) + 6 * length x + 11.
 Proof.
-  intros ar a h x Hx Hh Hn.
-  destruct (memmem_find_cost ar x h a Hx Hh Hn) as (r & Hr & Hc). split; [exists r; exact Hr|exact Hc].
+  intros ar a h x Hx Hh.
+  destruct (memmem_find_cost ar x h a Hx Hh) as (r & Hr & Hc). split; [exists r; exact Hr|exact Hc].
 Qed.
 
 (* Finder::new / FinderBuilder (any prefilter setting, any ranker) followed by find *)
 Theorem C13_finder : forall cfg (rank : N -> N) ar a h x,
-  bytes_ok x -> bytes_ok h -> ~ small_period x ->
-  steps (f <- finder_new cfg rank ar x;; finder_find ar f a h) <= 4905 * (length h + 1) + 6 * length x + 11.
+  bytes_ok x -> bytes_ok h ->
+  steps (f <- finder_new cfg rank ar x;; finder_find ar f a h) <= 4906 * (length h + 1) + 6 * length x + 11.
 Proof.
-  intros cfg rank ar a h x Hx Hh Hn.
-  destruct (finder_cost ar x h a Hx Hh cfg rank Hn) as (r & Hr & Hc). exact Hc.
+  intros cfg rank ar a h x Hx Hh.
+  destruct (finder_cost ar x h a Hx Hh cfg rank) as (r & Hr & Hc). exact Hc.
 Qed.
 
-(* prefilter disabled: every needle *)
-Theorem C13_finder_noprefilter : forall (rank : N -> N) ar a h x,
-  bytes_ok x -> bytes_ok h ->
-  steps (f <- finder_new PNone rank ar x;; finder_find ar f a h) <= 4905 * (length h + 1) + 6 * length x + 11.
+(* a finder reused from ANY prefilter state (C16): the search alone *)
+Theorem C13_searcher_reuse : forall ar a h x s st,
+  bytes_ok x -> bytes_ok h -> strat_for ar x s -> strat_small s ->
+  steps (searcher_find ar s st a h x) <= 4906 * (length h + 1) + length x + 3.
 Proof.
-  intros rank ar a h x Hx Hh.
-  destruct (finder_cost_noprefilter ar x h a Hx Hh rank) as (r & Hr & Hc). exact Hc.
+  intros ar a h x s st Hx Hh H1 H2.
+  destruct (searcher_find_cost ar x h a Hx Hh s st H1 H2) as (r & Hr & Hc). exact Hc.
 Qed.
 
-(* the remaining case, weak (product) bound: PARTIAL *)
-Theorem C13_find_small_period_partial : forall ar a h x,
-  bytes_ok x -> bytes_ok h ->
-  steps (memmem_find ar a h x) <= (length x + 4905) * (length h + 1) + 6 * length x + 11.
+(* the small-period case with a prefilter, on the Two-Way block itself: any prefilter obeying pre_cost *)
+Theorem C13_twoway_small_prefilter : forall x h tw pf a st K1 K2 p,
+  1 <= length x -> fst (tw_new x) = Ok tw -> tw_shift tw = Small p ->
+  pre_ok x pf -> pre_mul_saturating = true -> pre_cost x pf K1 K2 -> bytes_ok h ->
+  steps (tw_find tw (Some pf) a h x st) <= (4 + K1 + K2) * length h.
 Proof.
-  intros ar a h x Hx Hh.
-  destruct (memmem_find_cost_small_period_weak ar x h a Hx Hh) as (r & Hr & Hc). exact Hc.
+  intros x h tw pf a st K1 K2 p H1 H2 H3 H4 H5 H6 H7.
+  destruct (tw_find_cost_pre_small_sharp_all x h tw pf a st K1 K2 p H1 H2 H3 H4 H5 H6 H7) as (r & _ & Hc). exact Hc.
 Qed.
 
 (* memmem::rfind and FinderRev: every needle *)
@@ -110,13 +109,11 @@ Theorem C13_rabinkarp : forall f x h,
   steps (rk_find f x h) <= length x + (length h + 1) * (length x / 2 + 6).
 Proof. intros f x h. destruct (rk_find_cost f x h) as (r & _ & Hc). exact Hc. Qed.
 
-(* non-vacuity: both kinds of needle exist, and the classification is computable *)
-Example C13_not_small_period : ~ small_period [97; 98; 99; 100; 101; 102]%N.
-Proof.
-  intros (tw & q & H1 & H2). vm_compute in H1. injection H1 as <-. discriminate.
-Qed.
+(* non-vacuity: needles of both Two-Way kinds exist and reach the theorems *)
+Example C13_large_shift_needle : exists tw s, fst (tw_new [97; 98; 99; 100; 101; 102]%N) = Ok tw /\ tw_shift tw = Large s.
+Proof. eexists. eexists. split; vm_compute; reflexivity. Qed.
 
-Example C13_small_period : small_period [97; 98; 97; 98; 97; 98; 97; 98]%N.
+Example C13_small_period_needle : exists tw q, fst (tw_new [97; 98; 97; 98; 97; 98; 97; 98]%N) = Ok tw /\ tw_shift tw = Small q.
 Proof. eexists. eexists. split; vm_compute; reflexivity. Qed.
 
 Example C13_example :
@@ -126,8 +123,8 @@ Proof. vm_compute. reflexivity. Qed.
 Print Assumptions C13_params.
 Print Assumptions C13_find.
 Print Assumptions C13_finder.
-Print Assumptions C13_finder_noprefilter.
-Print Assumptions C13_find_small_period_partial.
+Print Assumptions C13_searcher_reuse.
+Print Assumptions C13_twoway_small_prefilter.
 Print Assumptions C13_rfind.
 Print Assumptions C13_rfinder.
 Print Assumptions C13_twoway.
